@@ -3,7 +3,7 @@
    Combined with C02 (pk∘cp = ref_enc) and C03 (uk∘cu = ref_dec) this is the round trip of
    the generated code. *)
 From Coq Require Import List String Ascii ZArith Bool Lia.
-From Verif Require Import Core TyModel TyProofs.
+From Verif Require Import Core TupleIdx TyModel TyTuple TyProofs.
 Import ListNotations.
 Open Scope string_scope.
 Open Scope Z_scope.
@@ -63,17 +63,25 @@ Section AllNodes.
     | _ => true end.
 End AllNodes.
 
-(* types whose values survive the basic form.  Mapping keys are restricted to the scalar
-   key types whose packer is the identity (leaf/enum-typed keys are decided by the
-   correspondence and the oracle only). *)
+(* types whose values survive the basic form.  Mapping keys: the scalar key types, whose packer is the
+   identity, and leaf / enum / bytes key types, whose wire form is a rendering -- for those the round trip
+   needs the renderings of the keys present to be pairwise distinct ([atom_ok] on the dict, below). *)
 Definition key_id (t: sty) : bool :=
   match t with SIntT | SFloatT | SBoolT | SStrT => true | _ => false end.
+Definition key_ok (t: sty) : bool :=
+  match t with SIntT | SFloatT | SBoolT | SStrT | SLeaf _ | SEnum _ | SBytes _ => true | _ => false end.
 
 Fixpoint lossless (t: sty) : bool :=
   match t with
-  | SList t' | SSet _ t' | STupleVar t' | SOpt t' => lossless t'
+  | SList t' | SSet _ t' | STupleVar t' | SOpt t' | SSeq t' => lossless t'
   | STupleFix ts => forallb lossless ts
-  | SDict kt vt => key_id kt && lossless vt
+  | STupleU pre mid post => forallb lossless pre && lossless mid && forallb lossless post
+  | SDict kt vt | SMap kt vt => key_ok kt && lossless vt
+  | SBox b t' =>
+      (* the content of a boxed collection is a list or a dict; a ChainMap holds a list of maps (the
+         normalisation of the canonical empty one relies on that shape) *)
+      (if is_chain b then match t' with SSeq (SMap _ _) => true | _ => false end
+       else match t' with SSeq _ | SMap _ _ => true | _ => false end) && lossless t'
   | _ => true end.
 
 Definition cls_ok (c: scls) : bool :=
@@ -162,6 +170,14 @@ Section C01.
   (* every atomic value present round-trips through its stdlib primitive, and Python's
      container invariants hold (set elements / dict keys hashable and pairwise distinct).
      Exactly the documented lossy representations fail [atom_ok]. *)
+  (* what a mapping key looks like on the wire *)
+  Definition key_wire (k: pv) : pv :=
+    match k with
+    | VLeaf kd w => P.(p_render) kd w
+    | VEnum e m => match P.(p_enum_value) e m with Some val => val | None => k end
+    | VBytes _ b => VStr (P.(p_b64enc) b)
+    | _ => k end.
+
   Definition atom_ok (x: pv) : bool :=
     match x with
     | VLeaf k w =>
@@ -175,7 +191,11 @@ Section C01.
     | VBytes _ b =>
         match P.(p_b64dec) (VStr (P.(p_b64enc) b)) with Some b' => String.eqb b' b | None => false end
     | VSet _ l => nodup_elems l && forallb hashable l
-    | VDict kvs => forallb (fun p => hashable (fst p)) kvs
+    | VDict kvs =>
+        (* keys hashable; the wire forms of the keys pairwise distinct (for scalar keys this is the dict invariant
+           itself; for leaf / enum / bytes keys: the rendering does not identify two keys that are present) *)
+        forallb (fun p => hashable (fst p)) kvs &&
+        nodup_keys (map (fun p => (key_wire (fst p), snd p)) kvs)
     | _ => true end.
 
   Definition vals_ok := all_nodes atom_ok.
@@ -194,10 +214,10 @@ Section C01.
 
   (* a non-None conforming value never encodes to None (needed under Optional) *)
   Lemma enc_not_none v : forall t w,
-    conf_ord E v t = true -> is_none v = false -> atom_ok v = true ->
+    conf_ord E v t = true -> lossless t = true -> is_none v = false -> atom_ok v = true ->
     ref_enc E P v t = Ok w -> is_none w = false.
   Proof.
-    intros t. induction t; intros w HC HN HA HE; rewrite conf_unfold in HC; rewrite ref_enc_unfold in HE.
+    intros t. induction t; intros w HC HL HN HA HE; rewrite conf_unfold in HC; rewrite ref_enc_unfold in HE.
     all: try (injection HE as Hw; rewrite <- Hw; exact HN).
     - (* bytes *) destruct v; try discriminate. inversion HE. reflexivity.
     - (* leaf *) destruct v; try discriminate. inversion HE; subst. cbn [atom_ok] in HA.
@@ -210,29 +230,100 @@ Section C01.
     - destruct v; try discriminate. destruct (mapM _ _); inversion HE. reflexivity.
     - destruct v; try discriminate.
       match type of HE with (bind ?X _ = _) => destruct X end; inversion HE. reflexivity.
+    - (* tuple with an unpacked segment *)
+      destruct v; try discriminate. destruct (_ <? _)%nat; [discriminate|]. cbv zeta in HE.
+      match type of HE with (bind ?X _ = _) => destruct X end; inversion HE. reflexivity.
     - destruct v; try discriminate. destruct (mapM _ _); inversion HE. reflexivity.
-    - (* Optional *) rewrite HN in HE, HC. cbn [orb] in HC. apply (IHt w HC HN HA HE).
+    - (* Optional *) rewrite HN in HE, HC. cbn [orb] in HC. apply (IHt w HC HL HN HA HE).
     - destruct v; try discriminate. destruct (sfind E _ c); [|discriminate].
       match type of HE with (bind ?X _ = _) => destruct X end; inversion HE. reflexivity.
     - destruct v; try discriminate. destruct (sfind E _ c); [|discriminate].
       match type of HE with (bind ?X _ = _) => destruct X end; inversion HE. reflexivity.
     - destruct v; try discriminate. destruct (sfind E _ c); [|discriminate]. cbv zeta in HE.
       match type of HE with (bind ?X _ = _) => destruct X end; inversion HE. reflexivity.
+    - (* Sequence *) destruct v; try discriminate. destruct (mapM _ _); inversion HE. reflexivity.
+    - (* Mapping *) destruct v; try discriminate. destruct (mapM _ _); inversion HE. reflexivity.
+    - (* boxed collection: its content is a list or a dict *)
+      destruct v as [ | | | | | | | | | | c fs | | | | ]; try discriminate HC.
+      destruct fs as [|[n inner] [|]]; try discriminate HC.
+      destruct (chain_empty (is_chain b) inner); [inversion HE; reflexivity|].
+      apply andb_prop in HC. destruct HC as [_ HC]. cbn [lossless] in HL. apply andb_prop in HL. destruct HL as [Hs _].
+      assert (Hshape: match t with SSeq _ | SMap _ _ => True | _ => False end).
+      { destruct (is_chain b); destruct t; try discriminate Hs; exact I. }
+      rewrite conf_unfold in HC. rewrite ref_enc_unfold in HE.
+      destruct t; try contradiction; destruct inner; try discriminate HC; destruct (mapM _ _); inversion HE; reflexivity.
   Qed.
 
-  Lemma const_ty_conf_eq t c x : const_ty t = Some c -> conf_ord E x t = true -> x = c.
+  Lemma omapM_nt_eq {B} (g: sfield -> option B) (q: sfield -> B -> bool) fds (l cs: list B) :
+    (forall f x c, q f x = true -> g f = Some c -> x = c) -> nt_all q fds l = true -> omapM g fds = Some cs -> l = cs.
   Proof.
-    intros Hc HC. rewrite conf_unfold in HC.
-    destruct t as [ | | | | | | | | | | | | [|t1 ts1] | | t' | | | ]; try discriminate Hc; inversion Hc; subst.
-    - apply is_none_eq0. exact HC.
-    - destruct x as [ | | | | | | | [|x0 l] | | | | | | | ]; try discriminate HC. reflexivity.
+    intros Hq. revert fds cs. induction l as [|x l IH]; intros fds cs HA Hm.
+    - destruct fds; [inversion Hm; reflexivity | discriminate HA].
+    - destruct fds as [|f r]; [discriminate HA|]. cbn [nt_all] in HA. apply andb_prop in HA. destruct HA as [Hx HA].
+      cbn [omapM] in Hm. destruct (g f) as [c|] eqn:Eg; [|discriminate Hm].
+      destruct (omapM g r) as [ys|] eqn:Er; [|discriminate Hm]. inversion Hm; subst.
+      rewrite (Hq f x c Hx Eg), (IH r ys HA Er). reflexivity.
   Qed.
 
-  Lemma dec_key_id k kt : key_id kt = true -> conf_ord E k kt = true -> ref_dec E P k kt = Ok k /\ ref_enc E P k kt = Ok k.
+  Lemma omapM_tuple_eq (g: sty -> option pv) ts (l cs: list pv) :
+    Forall (fun t => forall c x, g t = Some c -> conf_ord E x t = true -> x = c) ts -> omapM g ts = Some cs ->
+    (fix go (ts: list sty) (l: list pv) {struct l} : bool :=
+       match ts, l with
+       | [], [] => true
+       | t' :: ts', x :: l' => conf_ord E x t' && go ts' l'
+       | _, _ => false end) ts l = true -> l = cs.
   Proof.
-    intros Hk HC. rewrite conf_unfold in HC. rewrite ref_dec_unfold, ref_enc_unfold.
-    destruct kt; try discriminate; destruct k; try discriminate; split; reflexivity.
+    intros HF. revert l cs. induction HF as [|t1 ts H1 Hts IH]; intros l cs Em HC.
+    - inversion Em. destruct l; [reflexivity | discriminate HC].
+    - destruct l as [|x l]; [discriminate HC|]. apply andb_prop in HC. destruct HC as [Cx Cl].
+      cbn [omapM] in Em. destruct (g t1) as [c1|] eqn:E1; [|discriminate Em].
+      destruct (omapM g ts) as [cs1|] eqn:E2; [|discriminate Em]. inversion Em.
+      rewrite (H1 c1 x eq_refl Cx), (IH l cs1 eq_refl Cl). reflexivity.
   Qed.
+
+  (* a conforming value of a constant type is that constant *)
+  Lemma const_ty_conf_eq_n n : forall t c x, const_ty_n E n t = Some c -> conf_ord E x t = true -> x = c.
+  Proof.
+    induction n as [|n IHn].
+    all: induction t as [ | | | | | | m' | k' | e' | t' IHt | fr' t' IHt | t' IHt | ts IHts | pre IHpre mid IHmid IHmide post IHpost | kt IHkt vt IHvt | t' IHt | c' | c' | c' | t' IHt | kt IHkt vt IHvt | bx t' IHt ]
+      using sty_ind'; intros c x Hc HC; rewrite const_ty_n_unfold in Hc; try discriminate Hc.
+    all: try solve [
+      destruct (omapM (const_ty_n E _) pre) as [a|] eqn:Ea; [|discriminate Hc];
+      destruct mid; try discriminate Hc;
+      match type of Hc with (match omapM ?g ?l with _ => _ end = _) => destruct (omapM g l) as [m|] eqn:Em end; [|discriminate Hc];
+      destruct (omapM (const_ty_n E _) post) as [b|] eqn:Eb; [|discriminate Hc];
+      inversion Hc; destruct x; try (rewrite conf_unfold in HC; discriminate HC);
+      destruct (conf_tupleu_parts _ _ _ _ _ _ HC) as [Hlen [Hpre [Hmid Hpost]]];
+      f_equal; rewrite <- (parts_rejoin l _ _ Hlen);
+      rewrite (omapM_pos_eq _ _ _ _ _ (fun d x0 c0 Hd Hq Hg => Forall_In _ _ IHpre d Hd c0 x0 Hg Hq) Hpre Ea);
+      rewrite (omapM_pos_eq _ _ _ _ _ (fun d x0 c0 Hd Hq Hg => Forall_In _ _ IHmide d Hd c0 x0 Hg Hq) Hmid Em);
+      rewrite (omapM_pos_eq _ _ _ _ _ (fun d x0 c0 Hd Hq Hg => Forall_In _ _ IHpost d Hd c0 x0 Hg Hq) Hpost Eb);
+      reflexivity ].
+    all: rewrite conf_unfold in HC.
+    all: try (inversion Hc; apply is_none_eq0; exact HC).
+
+    all: try (match type of Hc with (match omapM ?g ?l with _ => _ end = _) => destruct (omapM g l) as [cs|] eqn:Em end; [|discriminate Hc];
+              inversion Hc; destruct x; try discriminate HC; f_equal; apply (omapM_tuple_eq _ _ _ _ IHts Em HC)).
+    destruct (sfind E KNamed c') as [k|] eqn:Ef; [|discriminate Hc].
+    destruct (has_default (sc_fields k)); [discriminate Hc|].
+    match type of Hc with (match ?X with _ => _ end = _) => destruct X as [cs|] eqn:Em end; [|discriminate Hc].
+    inversion Hc. destruct x; try discriminate HC. apply andb_prop in HC. destruct HC as [Hn HC].
+    apply String.eqb_eq in Hn. subst. f_equal.
+    refine (omapM_nt_eq _ _ _ _ _ _ HC Em). intros f xx cc Hq Hg. apply (IHn _ _ _ Hg Hq).
+  Qed.
+
+  Lemma const_ty_conf_eq t c x : const_ty E t = Some c -> conf_ord E x t = true -> x = c.
+  Proof. apply const_ty_conf_eq_n. Qed.
+
+  Lemma enc_key_wire k kt k' : key_ok kt = true -> conf_ord E k kt = true -> ref_enc E P k kt = Ok k' -> k' = key_wire k.
+  Proof.
+    intros Hk HC HE. rewrite conf_unfold in HC. rewrite ref_enc_unfold in HE.
+    destruct kt; try discriminate Hk; destruct k; try discriminate HC; try (inversion HE; reflexivity).
+    cbn [key_wire]. destruct (p_enum_value P e0 m) as [val|]; cbn [lift] in HE; [|discriminate HE]. inversion HE. reflexivity.
+  Qed.
+
+  Lemma key_ok_lossless kt : key_ok kt = true -> lossless kt = true.
+  Proof. destruct kt; intros H; try discriminate H; reflexivity. Qed.
 
   Definition rt_ok (v: pv) : Prop :=
     forall t w, conf_ord E v t = true -> lossless t = true -> vals_ok v = true ->
@@ -359,7 +450,7 @@ Section C01.
           destruct (is_none y && sfield_nullable f) eqn:Hyn.
           + exfalso. apply andb_prop in Hyn. destruct Hyn as [Hyn Hnf]. rewrite Hnf in Hnull. cbn [andb] in Hnull.
             rewrite vals_ok_unfold in Vx. apply andb_prop in Vx. destruct Vx as [Ax _].
-            rewrite (enc_not_none x (sf_ty f) y Cx Hnull Ax Ey) in Hyn. discriminate.
+            rewrite (enc_not_none x (sf_ty f) y Cx Lx Hnull Ax Ey) in Hyn. discriminate.
           + apply (Qx (sf_ty f) y Cx Lx Vx Ey). }
       rewrite Hy. cbn [bind].
       rewrite (IH fs tl (pre ++ [(VStr (sf_name f), y)])); [reflexivity | | exact Qr | exact Cr | exact Lr | exact Nr | exact Vr | exact Etl | ].
@@ -373,36 +464,198 @@ Section C01.
           rewrite Hx in Nf. discriminate.
   Qed.
 
+  (* ---- tuple with an unpacked segment ---- *)
+  Lemma rt_tupleu l pre mid post w0 : Forall rt_ok l ->
+    conf_ord E (VTuple l) (STupleU pre mid post) = true -> lossless (STupleU pre mid post) = true ->
+    vals_ok (VTuple l) = true ->
+    ref_enc E P (VTuple l) (STupleU pre mid post) = Ok w0 -> ref_dec E P w0 (STupleU pre mid post) = Ok (VTuple l).
+  Proof.
+    intros IHl HC HL HV HE. destruct (conf_tupleu_parts _ _ _ _ _ _ HC) as [Hlen [Hpre [Hmid Hpost]]].
+    cbn [lossless] in HL. apply andb_prop in HL. destruct HL as [HL Lpost]. apply andb_prop in HL. destruct HL as [Lpre Lmid].
+    rewrite forallb_forall in Lpre, Lpost.
+    rewrite vals_ok_unfold in HV. apply andb_prop in HV. destruct HV as [_ HVl]. rewrite forallb_forall in HVl.
+    rewrite ref_enc_unfold in HE.
+    replace (List.length l <? List.length pre + List.length post)%nat with false in HE by (symmetry; apply Nat.ltb_ge; exact Hlen).
+    cbv zeta in HE. unfold tu_split in HE. rewrite !map_length in HE. rewrite !skipn_map, !firstn_map in HE.
+    match type of HE with (bind (bind ?X _) _ = _) => destruct X as [a|] eqn:Ea end; [|discriminate HE]. cbn [bind] in HE.
+    match type of HE with (bind (bind ?X _) _ = _) => destruct X as [m|] eqn:Em end; [|discriminate HE]. cbn [bind] in HE.
+    match type of HE with (bind (bind ?X _) _ = _) => destruct X as [b|] eqn:Eb end; [|discriminate HE]. cbn [bind] in HE.
+    inversion HE; subst w0. clear HE.
+    set (genc := fun x0 : pv => ref_enc E P x0) in *.
+    set (renc := fun (t': sty) (dx: sty -> res pv) => dx t') in *.
+    set (qc := fun (t': sty) (x0: pv) => conf_ord E x0 t') in *.
+    (* one step back: the decoder of a type inverts the encoder on a conforming item of the value *)
+    assert (Hback: forall M d x y, (forall x0, In x0 M -> In x0 l) -> lossless d = true ->
+              stepR genc renc qc M d x y -> ref_dec E P y d = Ok x /\ conf_ord E x d = true).
+    { intros M d x y HM Ld [Hq [Hx Hy]]. split; [|exact Hq].
+      apply (Forall_In _ _ IHl x (HM x Hx) d y Hq Ld (HVl x (HM x Hx)) Hy). }
+    assert (Hstep: forall M d x y, (forall x0, In x0 M -> In x0 l) -> lossless d = true ->
+              stepR genc renc qc M d x y ->
+              match const_ty E d with Some c => Ok c | None => ref_dec E P y d end = Ok x).
+    { intros M d x y HM Ld Hs. destruct (Hback M d x y HM Ld Hs) as [Hd Hq].
+      destruct (const_ty E d) as [c|] eqn:Ec; [|exact Hd]. rewrite (const_ty_conf_eq d c x Ec Hq). reflexivity. }
+    pose proof (zip3_in _ _ _ _ (pos_walk_zip _ _ _ _ _ _ Hpre Ea)) as Za.
+    pose proof (zip3_in _ _ _ _ (pos_walk_zip _ _ _ _ _ _ Hpost Eb)) as Zb.
+    assert (La: List.length a = List.length pre).
+    { rewrite (proj1 (zip3_length _ _ _ _ Za)). apply (pos_all_length _ _ _ Hpre). }
+    assert (Lb: List.length b = List.length post).
+    { rewrite (proj1 (zip3_length _ _ _ _ Zb)). apply (pos_all_length _ _ _ Hpost). }
+    destruct (app3_parts a m b) as [P1 [P2 P3]]. rewrite La in P1, P2. rewrite Lb in P2, P3.
+    rewrite (ref_dec_unfold E P true). unfold tu_ref. rewrite map_length.
+    replace (List.length (a ++ m ++ b) <? List.length pre + List.length post)%nat with false
+      by (symmetry; apply Nat.ltb_ge; rewrite !app_length; lia).
+    unfold tu_split. rewrite map_length. rewrite !skipn_map, !firstn_map. rewrite P1, P2, P3.
+    (* head *)
+    rewrite (zip3_pos_walk_back _ (fun y0 => ref_dec E P y0) (fun (t': sty) (dx: sty -> res pv) => dx t') (const_ty E) (fun x0 => x0) _ _ _
+               (fun d x y H0 => Hstep _ d x y (fun x0 Hx0 => in_firstn _ _ _ Hx0) (Lpre d (proj1 H0)) (proj2 H0)) Za).
+    cbn [bind].
+    (* tail *)
+    rewrite (zip3_pos_walk_back _ (fun y0 => ref_dec E P y0) (fun (t': sty) (dx: sty -> res pv) => dx t') (const_ty E) (fun x0 => x0) _ _ _
+               (fun d x y H0 => Hstep _ d x y (fun x0 Hx0 => in_skipn _ _ _ Hx0) (Lpost d (proj1 H0)) (proj2 H0)) Zb).
+    (* middle *)
+    assert (Hm: (match mid with
+                 | STupleVar t' => mid_var (fun (t': sty) (dx: sty -> res pv) => dx t') t'
+                 | STupleFix ts => mid_fix (fun (t': sty) (dx: sty -> res pv) => dx t') (const_ty E) (none_tail_t E) ts
+                 | _ => fun _ => Exn XTypeError end) (Some (map (fun y0 => ref_dec E P y0) m)) =
+                Ok (firstn (List.length l - List.length pre - List.length post) (skipn (List.length pre) l))).
+    { destruct mid; try discriminate Hmid.
+      - cbn [lossless] in Lmid.
+        pose proof (mid_var_zip genc renc qc _ mid _ Hmid Em) as Zm.
+        unfold mid_var.
+        rewrite (Forall2_mapM_back _ (fun y0 => ref_dec E P y0) (fun dx : sty -> res pv => dx mid) (fun x0 => x0) _ _
+                   (fun x y H0 => proj1 (Hback _ mid x y (fun x0 Hx0 => in_skipn _ _ _ (in_firstn _ _ _ Hx0)) Lmid H0)) Zm).
+        rewrite map_id. reflexivity.
+      - cbn [lossless] in Lmid. rewrite forallb_forall in Lmid.
+        unfold mid_fix.
+        destruct (omapM (const_ty E) ts) as [cs|] eqn:Ec.
+        + f_equal. symmetry. refine (omapM_pos_eq (const_ty E) qc ts _ cs _ Hmid Ec).
+          intros d x c _ Hq Hg. apply (const_ty_conf_eq d c x Hg Hq).
+        + unfold mid_fix in Em. destruct ts as [|t1 ts]; [discriminate Ec|]. cbn [omapM] in Em.
+          pose proof (zip3_in _ _ _ _ (fix_walk_zip _ _ _ _ _ _ _ Hmid Em)) as Zm.
+          rewrite (zip3_fix_walk_back _ (fun y0 => ref_dec E P y0) (fun (t': sty) (dx: sty -> res pv) => dx t') (none_tail_t E) (fun x0 => x0) _ _ _
+                     (fun d x y H0 => proj1 (Hback _ d x y (fun x0 Hx0 => in_skipn _ _ _ (in_firstn _ _ _ Hx0)) (Lmid d (proj1 H0)) (proj2 H0))) Zm).
+          rewrite map_id. reflexivity. }
+    rewrite Hm. cbn [bind]. rewrite !map_id. rewrite (parts_rejoin l _ _ Hlen). reflexivity.
+  Qed.
+
+  (* ---- dicts / Mappings: keys through their wire form ---- *)
+  Lemma rt_pairs kvs kt vt : Forall (fun p => rt_ok (fst p) /\ rt_ok (snd p)) kvs ->
+    key_ok kt = true -> lossless vt = true ->
+    forallb (fun p : pv * pv => match p with (k, x) => conf_ord E k kt && conf_ord E x vt end) kvs = true ->
+    forallb (fun p : pv * pv => match p with (k, x) => vals_ok k && vals_ok x end) kvs = true ->
+    forallb (fun p : pv * pv => hashable (fst p)) kvs = true ->
+    forall r, mapM (fun p : pv * pv => match p with (k, x) =>
+                      k' <- ref_enc E P k kt ;; x' <- ref_enc E P x vt ;; Ok (k', x') end) kvs = Ok r ->
+    map fst r = map (fun p => key_wire (fst p)) kvs /\
+    mapM (fun p : pv * pv => match p with (k, x) =>
+            k' <- ref_dec E P k kt ;; x' <- ref_dec E P x vt ;;
+            if hashable k' then Ok (k', x') else Exn XTypeError end) r = Ok kvs.
+  Proof.
+    intros IHk Hkok HLv. induction kvs as [|[k x] kvs IHkvs]; intros HC HVl HA r Em.
+    - cbn in Em. inversion Em. split; reflexivity.
+    - cbn [mapM] in Em. cbn [forallb] in HC, HVl, HA.
+      apply andb_prop in HC. destruct HC as [Ckx Cl]. apply andb_prop in Ckx. destruct Ckx as [Ck Cx].
+      apply andb_prop in HVl. destruct HVl as [Vkx Vl]. apply andb_prop in Vkx. destruct Vkx as [Vk Vx].
+      apply andb_prop in HA. destruct HA as [Hk Hl]. cbn [fst] in Hk.
+      inversion IHk as [|? ? [Qk Qx] Qkvs]; subst. cbn [fst snd] in Qk, Qx.
+      destruct (ref_enc E P k kt) as [k1|] eqn:Ek; [|discriminate Em]. cbn [bind] in Em.
+      destruct (ref_enc E P x vt) as [y|] eqn:Ey; [|discriminate Em]. cbn [bind] in Em.
+      match type of Em with (match ?X with _ => _ end = _) => destruct X as [ys|] eqn:Eys end; [|discriminate Em].
+      inversion Em; subst. destruct (IHkvs Qkvs Cl Vl Hl ys eq_refl) as [F1 F2].
+      split; [cbn [map fst]; rewrite F1, (enc_key_wire k kt k1 Hkok Ck Ek); reflexivity|].
+      cbn [mapM]. rewrite (Qk kt k1 Ck (key_ok_lossless kt Hkok) Vk Ek). cbn [bind].
+      rewrite (Qx vt y Cx HLv Vx Ey). cbn [bind]. rewrite Hk. rewrite F2. reflexivity.
+  Qed.
+
+  Lemma rt_dict kvs kt vt w0 : Forall (fun p => rt_ok (fst p) /\ rt_ok (snd p)) kvs ->
+    nodup_keys kvs && forallb (fun p : pv * pv => match p with (k, x) => conf_ord E k kt && conf_ord E x vt end) kvs = true ->
+    key_ok kt && lossless vt = true -> vals_ok (VDict kvs) = true ->
+    (r <- mapM (fun p : pv * pv => match p with (k, x) =>
+                  k' <- ref_enc E P k kt ;; x' <- ref_enc E P x vt ;; Ok (k', x') end) kvs ;;
+     Ok (VDict (dict_of_pairs r))) = Ok w0 ->
+    (r <- mapM (fun p : pv * pv => match p with (k, x) =>
+                  k' <- ref_dec E P k kt ;; x' <- ref_dec E P x vt ;;
+                  if hashable k' then Ok (k', x') else Exn XTypeError end)
+               (match w0 with VDict kvs' => kvs' | _ => [] end) ;;
+     Ok (VDict (dict_of_pairs r))) = Ok (VDict kvs) /\ exists kvs', w0 = VDict kvs'.
+  Proof.
+    intros IHk HC HL HV HE.
+    apply andb_prop in HC. destruct HC as [Hnd HC]. apply andb_prop in HL. destruct HL as [Hkok HLv].
+    rewrite vals_ok_unfold in HV. apply andb_prop in HV. destruct HV as [HA HVl]. cbn [atom_ok] in HA.
+    apply andb_prop in HA. destruct HA as [Hh Hw].
+    match type of HE with (bind ?X _ = _) => destruct X as [r|] eqn:Em end; [|discriminate HE]. cbn [bind] in HE. inversion HE; subst w0.
+    destruct (rt_pairs kvs kt vt IHk Hkok HLv HC HVl Hh r Em) as [Hk Hm].
+    assert (Hnr: nodup_keys r = true).
+    { rewrite (nodup_keys_fst r (map (fun p => (key_wire (fst p), snd p)) kvs)); [exact Hw|].
+      rewrite Hk, map_map. reflexivity. }
+    rewrite (dict_of_pairs_nodup r Hnr). split; [|eexists; reflexivity].
+    rewrite Hm. cbn [bind]. rewrite (dict_of_pairs_nodup kvs Hnd). reflexivity.
+  Qed.
+
+  (* ---- boxed collections ---- *)
+  Lemma rt_box c n inner bx t' w0 : rt_ok inner ->
+    String.eqb c (box_name bx) && String.eqb n "" && chain_canon bx inner && conf_ord E inner t' = true ->
+    lossless (SBox bx t') = true -> vals_ok inner = true ->
+    (if chain_empty (is_chain bx) inner then Ok (VList [VDict []]) else ref_enc E P inner t') = Ok w0 ->
+    (r <- ref_dec E P w0 t' ;; Ok (box_val bx r)) = Ok (VObj c [(n, inner)]).
+  Proof.
+    intros Qi HC HL HV HE.
+    apply andb_prop in HC. destruct HC as [HC Ci]. apply andb_prop in HC. destruct HC as [HC Hcan].
+    apply andb_prop in HC. destruct HC as [Hc Hn]. apply String.eqb_eq in Hc. apply String.eqb_eq in Hn. subst c n.
+    cbn [lossless] in HL. apply andb_prop in HL. destruct HL as [Hs Ll].
+    destruct (chain_empty (is_chain bx) inner) eqn:Ece.
+    - (* the canonical empty ChainMap: wire [{}] *)
+      unfold chain_empty in Ece. apply andb_prop in Ece. destruct Ece as [Hch Hin]. rewrite Hch in Hs.
+      destruct inner as [ | | | | | | l | | | | | | | | ]; try discriminate Hin. destruct l; [|discriminate Hin].
+      inversion HE; subst w0. destruct t' as [ | | | | | | | | | | | | | | | | | | | t'' | | ]; try discriminate Hs.
+      destruct t''; try discriminate Hs.
+      rewrite (ref_dec_unfold E P true). cbn [mapM]. rewrite (ref_dec_unfold E P true). cbn [mapM bind dict_of_pairs fold_left].
+      destruct bx; try discriminate Hch. reflexivity.
+    - rewrite (Qi t' w0 Ci Ll HV HE). cbn [bind]. unfold box_val. f_equal. f_equal. f_equal.
+      unfold chain_canon in Hcan. destruct bx; try reflexivity. cbn [is_chain andb] in Hcan.
+      destruct inner as [ | | | | | | l | | | | | | | | ]; try reflexivity.
+      destruct l as [|x l']; try reflexivity. destruct x as [ | | | | | | | | | kvs | | | | | ]; destruct l'; try reflexivity.
+      all: destruct kvs; first [discriminate Hcan | reflexivity].
+  Qed.
+
   Theorem ref_roundtrip : forall v, rt_ok v.
   Proof.
     induction v as [ | b | z | f | s | m b | l IHl | l IHl | fr l IHl | kvs IHk | c fs IHf | e m | k w | c l IHl | tg ]
       using pv_rect'; unfold rt_ok.
-    all: intros t; induction t as [ | | | | | | m' | k' | e' | t' IHt | fr' t' IHt | t' IHt | ts | kt IHkt vt IHvt | t' IHt | c' | c' | c' ];
-      intros w0 HC HL HV HE; rewrite conf_unfold in HC; try discriminate HC;
+    all: intros t; induction t as [ | | | | | | m' | k' | e' | t' IHt | fr' t' IHt | t' IHt | ts | pre mid IHmid post | kt IHkt vt IHvt | t' IHt | c' | c' | c' | t' IHt | kt IHkt vt IHvt | bx t' IHt ];
+      intros w0 HC HL HV HE; try (solve [apply (rt_tupleu _ _ _ _ _ IHl HC HL HV HE)]);
+      rewrite conf_unfold in HC; try discriminate HC;
       rewrite ref_enc_unfold in HE;
-      try (inversion HE; subst; rewrite ref_dec_unfold; reflexivity).
+      try (inversion HE; subst; rewrite (ref_dec_unfold E P true); reflexivity).
     (* Optional holding a non-None value *)
-    all: try solve [ cbn [is_none orb] in HC, HE; cbn [lossless] in HL; rewrite ref_dec_unfold;
+    all: try solve [ cbn [is_none orb] in HC, HE; cbn [lossless] in HL; rewrite (ref_dec_unfold E P true);
                      pose proof HV as HV'; rewrite vals_ok_unfold in HV'; apply andb_prop in HV'; destruct HV' as [HA _];
-                     rewrite (enc_not_none _ t' w0 HC eq_refl HA HE); apply IHt; assumption ].
+                     rewrite (enc_not_none _ t' w0 HC HL eq_refl HA HE); apply IHt; assumption ].
+    (* lists, variadic tuples, Sequences *)
+    all: try solve [
+      cbn [lossless] in HL; rewrite vals_ok_unfold in HV; apply andb_prop in HV; destruct HV as [_ HVl];
+      destruct (mapM (fun x => ref_enc E P x t') l) as [r|] eqn:Em; [|discriminate]; inversion HE; subst;
+      rewrite (ref_dec_unfold E P true); rewrite (mapM_rt l t' IHl HC HL HVl r Em); reflexivity ].
+    (* dicts, Mappings *)
+    all: try solve [
+      cbn [lossless] in HL; destruct (rt_dict kvs kt vt w0 IHk HC HL HV HE) as [Hd [kvs' Hw]]; subst w0;
+      rewrite (ref_dec_unfold E P true); exact Hd ].
+    (* boxed collections *)
+    all: try solve [
+      destruct fs as [|[n inner] [|]]; try discriminate HC;
+      rewrite vals_ok_unfold in HV; apply andb_prop in HV; destruct HV as [_ HVf]; cbn [forallb] in HVf; rewrite andb_true_r in HVf;
+      inversion IHf as [|? ? Qi _]; subst; cbn [snd] in Qi;
+      rewrite (ref_dec_unfold E P true); apply (rt_box _ _ _ _ _ _ Qi HC HL HVf HE) ].
     - (* bytes *)
-      inversion HE; subst. rewrite ref_dec_unfold.
+      inversion HE; subst. rewrite (ref_dec_unfold E P true).
       rewrite vals_ok_unfold in HV. apply andb_prop in HV. destruct HV as [HA _]. cbn [atom_ok] in HA.
       destruct (p_b64dec P (VStr (p_b64enc P b))) as [b'|]; [|discriminate].
       apply String.eqb_eq in HA. subst b'. cbn [lift bind].
       apply Bool.eqb_prop in HC. subst. reflexivity.
-    - (* list *)
-      cbn [lossless] in HL. rewrite vals_ok_unfold in HV. apply andb_prop in HV. destruct HV as [_ HVl].
-      destruct (mapM (fun x => ref_enc E P x t') l) as [r|] eqn:Em; [|discriminate]. inversion HE; subst.
-      rewrite ref_dec_unfold. rewrite (mapM_rt l t' IHl HC HL HVl r Em). reflexivity.
-    - (* variadic tuple *)
-      cbn [lossless] in HL. rewrite vals_ok_unfold in HV. apply andb_prop in HV. destruct HV as [_ HVl].
-      destruct (mapM (fun x => ref_enc E P x t') l) as [r|] eqn:Em; [|discriminate]. inversion HE; subst.
-      rewrite ref_dec_unfold. rewrite (mapM_rt l t' IHl HC HL HVl r Em). reflexivity.
     - (* fixed tuple *)
       cbn [lossless] in HL. rewrite vals_ok_unfold in HV. apply andb_prop in HV. destruct HV as [_ HVl].
       match type of HE with (bind ?X _ = _) => destruct X as [r|] eqn:Em end; [|discriminate]. inversion HE; subst.
-      rewrite ref_dec_unfold.
+      rewrite (ref_dec_unfold E P true).
       match goal with |- bind ?X _ = _ => assert (Hgo: X = Ok l) end; [|rewrite Hgo; reflexivity].
       clear HE. revert ts r HC HL Em. induction l as [|x l IHl']; intros ts r HC HL Em.
       + destruct ts; [|discriminate]. inversion Em. reflexivity.
@@ -419,36 +672,8 @@ Section C01.
       cbn [lossless] in HL. rewrite vals_ok_unfold in HV. apply andb_prop in HV. destruct HV as [HA HVl].
       cbn [atom_ok] in HA. apply andb_prop in HA. destruct HA as [Hnd Hh].
       destruct (mapM (fun x => ref_enc E P x t') l) as [r|] eqn:Em; [|discriminate]. inversion HE; subst.
-      rewrite ref_dec_unfold. rewrite (mapM_rt l t' IHl HC HL HVl r Em). cbn [bind].
+      rewrite (ref_dec_unfold E P true). rewrite (mapM_rt l t' IHl HC HL HVl r Em). cbn [bind].
       rewrite Hh. rewrite (set_of_list_nodup l Hnd). apply Bool.eqb_prop in Hfr. subst. reflexivity.
-    - (* dict with identity-packed keys *)
-      apply andb_prop in HC. destruct HC as [Hnd HC].
-      cbn [lossless] in HL. apply andb_prop in HL. destruct HL as [Hkid HLv].
-      rewrite vals_ok_unfold in HV. apply andb_prop in HV. destruct HV as [HA HVl]. cbn [atom_ok] in HA.
-      match type of HE with (bind ?X _ = _) => destruct X as [r|] eqn:Em end; [|discriminate]. inversion HE; subst. clear HE.
-      (* the encoded pairs keep their keys, and decode back element-wise *)
-      assert (Hr: map fst r = map fst kvs /\
-                  mapM (fun p : pv * pv => match p with (k, x) =>
-                          k' <- ref_dec E P k kt ;; x' <- ref_dec E P x vt ;;
-                          if hashable k' then Ok (k', x') else Exn XTypeError end) r = Ok kvs).
-      { clear Hnd IHkt IHvt. revert r Em IHk HC HVl HA. induction kvs as [|[k x] kvs IHkvs]; intros r Em IHk HC HVl HA.
-        - cbn in Em. inversion Em. split; reflexivity.
-        - cbn [mapM] in Em. cbn [forallb] in HC, HVl, HA.
-          apply andb_prop in HC. destruct HC as [Ckx Cl]. apply andb_prop in Ckx. destruct Ckx as [Ck Cx].
-          apply andb_prop in HVl. destruct HVl as [Vkx Vl]. apply andb_prop in Vkx. destruct Vkx as [Vk Vx].
-          apply andb_prop in HA. destruct HA as [Hk Hl]. cbn [fst] in Hk.
-          inversion IHk as [|? ? [Qk Qx] Qkvs]; subst. cbn [fst snd] in Qk, Qx.
-          destruct (dec_key_id k kt Hkid Ck) as [Dk Ek]. rewrite Ek in Em. cbn [bind] in Em.
-          destruct (ref_enc E P x vt) as [y|] eqn:Ey; [|discriminate]. cbn [bind] in Em.
-          match type of Em with (match ?X with _ => _ end = _) => destruct X as [ys|] eqn:Eys end; [|discriminate].
-          inversion Em; subst. destruct (IHkvs ys eq_refl Qkvs Cl Vl Hl) as [F1 F2].
-          split; [cbn [map fst]; rewrite F1; reflexivity|].
-          cbn [mapM]. rewrite Dk. cbn [bind]. rewrite (Qx vt y Cx HLv Vx Ey). cbn [bind]. rewrite Hk.
-          rewrite F2. reflexivity. }
-      destruct Hr as [Hk Hm].
-      rewrite ref_dec_unfold.
-      rewrite (dict_of_pairs_nodup r) by (rewrite (nodup_keys_fst r kvs Hk); exact Hnd).
-      rewrite Hm. cbn [bind]. rewrite (dict_of_pairs_nodup kvs Hnd). reflexivity.
     - (* TypedDict *)
       destruct (sfind E _ c') as [k|] eqn:Ef; [|discriminate HC].
       assert (Hk: cls_ok k = true).
@@ -458,9 +683,9 @@ Section C01.
       rewrite vals_ok_unfold in HV. apply andb_prop in HV. destruct HV as [_ HVl].
       cbv zeta in HE, HCf.
       match type of HE with (bind ?X _ = _) => destruct X as [R|] eqn:Em end; [|discriminate HE]. inversion HE; subst w0. clear HE.
-      rewrite ref_dec_unfold, Ef. cbv zeta.
+      rewrite (ref_dec_unfold E P true), Ef. cbv zeta.
       pose proof (names_nodup_td_order _ Hnn) as Hno.
-      assert (Hgo: td_go (fun f dx => dx (sf_ty f)) konst_t XKeyError
+      assert (Hgo: td_go (fun f dx => dx (sf_ty f)) (konst_t E) XKeyError
                      (map (fun p : pv * pv => match p with (key, x) => (key, ref_dec E P x) end) R) (td_order (sc_fields k)) = Ok kvs);
         [|rewrite Hgo; reflexivity].
       rewrite forallb_forall in HCf, Hll.
@@ -490,7 +715,7 @@ Section C01.
           { destruct (sf_opt f); cbv beta iota in Hsome; injection Hsome as Hy'; exact Hy'. }
           destruct (Hent f x Hf' El y Hy) as [Hd Cx].
           destruct (sf_opt f); [rewrite Hd; reflexivity|].
-          destruct (konst_t f) as [c|] eqn:Ek; [|rewrite Hd; reflexivity].
+          destruct ((konst_t E) f) as [c|] eqn:Ek; [|rewrite Hd; reflexivity].
           rewrite (const_ty_conf_eq _ c x Ek Cx). reflexivity.
     - (* dataclass *)
       apply andb_prop in HC. destruct HC as [Hc HC]. apply String.eqb_eq in Hc. subst c'.
@@ -501,7 +726,7 @@ Section C01.
       rewrite vals_ok_unfold in HV. apply andb_prop in HV. destruct HV as [_ HVf].
       fold (enc_fields (sc_fields k) fs) in HE. fold (conf_fields (sc_fields k) fs) in HC.
       destruct (enc_fields (sc_fields k) fs) as [r|] eqn:Er; [|discriminate]. inversion HE; subst. clear HE.
-      rewrite ref_dec_unfold. rewrite Ef. cbv zeta.
+      rewrite (ref_dec_unfold E P true). rewrite Ef. cbv zeta.
       fold (dec_fields c r (sc_fields k)).
       rewrite (dec_fields_rt c r (sc_fields k) fs r [] eq_refl IHf HC Hll Hnn HVf Er); [reflexivity|].
       intros p f [].
@@ -509,13 +734,13 @@ Section C01.
       rewrite vals_ok_unfold in HV. apply andb_prop in HV. destruct HV as [HA _]. cbn [atom_ok] in HA.
       destruct (p_enum_value P e m) as [val|]; [|discriminate]. cbn [lift] in HE. inversion HE; subst.
       apply andb_prop in HA. destruct HA as [_ HA].
-      rewrite ref_dec_unfold. destruct (p_enum_of P e' w0) as [m'|] eqn:Eo.
+      rewrite (ref_dec_unfold E P true). destruct (p_enum_of P e' w0) as [m'|] eqn:Eo.
       + apply String.eqb_eq in HC. subst e'. rewrite Eo in HA. apply String.eqb_eq in HA. subst. reflexivity.
       + apply String.eqb_eq in HC. subst e'. rewrite Eo in HA. discriminate.
     - (* leaf *)
       inversion HE; subst. rewrite vals_ok_unfold in HV. apply andb_prop in HV. destruct HV as [HA _]. cbn [atom_ok] in HA.
       apply andb_prop in HA. destruct HA as [_ HA]. apply String.eqb_eq in HC. subst k'.
-      rewrite ref_dec_unfold. destruct (p_parse P k (p_render P k w)) as [w'|]; [|discriminate].
+      rewrite (ref_dec_unfold E P true). destruct (p_parse P k (p_render P k w)) as [w'|]; [|discriminate].
       apply String.eqb_eq in HA. subst. reflexivity.
     - (* NamedTuple *)
       apply andb_prop in HC. destruct HC as [Hc HC]. apply String.eqb_eq in Hc. subst c'.
@@ -525,12 +750,12 @@ Section C01.
       unfold cls_ok in Hk. apply andb_prop in Hk. destruct Hk as [_ Hll].
       rewrite vals_ok_unfold in HV. apply andb_prop in HV. destruct HV as [_ HVl].
       match type of HE with (bind ?X _ = _) => destruct X as [r|] eqn:Em end; [|discriminate HE]. inversion HE; subst w0. clear HE.
-      rewrite ref_dec_unfold, Ef.
+      rewrite (ref_dec_unfold E P true), Ef.
       assert (Hr: forall f x y, In f (sc_fields k) -> In x l -> conf_ord E x (sf_ty f) = true ->
                     ref_enc E P x (sf_ty f) = Ok y -> ref_dec E P y (sf_ty f) = Ok x).
       { intros f x y Hf Hx Hq Hy. rewrite forallb_forall in Hll, HVl.
         apply (Forall_In _ _ IHl x Hx (sf_ty f) y Hq (Hll f Hf) (HVl x Hx) Hy). }
-      rewrite (nt_items_rt _ _ (fun f y => ref_dec E P y (sf_ty f)) _ _ konst_t
+      rewrite (nt_items_rt _ _ (fun f y => ref_dec E P y (sf_ty f)) _ _ (konst_t E)
                  (nt_exhausted (has_default (sc_fields k))) _ l r HC Hr Em). reflexivity.
   Qed.
 End C01.
@@ -582,12 +807,43 @@ Section Total.
       exists (y :: ys). cbn [mapM]. rewrite Ey, Eys. reflexivity.
   Qed.
 
+  Lemma total_tupleu l pre mid post : Forall enc_total_ok l ->
+    conf_g o E (VTuple l) (STupleU pre mid post) = true -> vals_ok P (VTuple l) = true ->
+    exists w, ref_enc E P (VTuple l) (STupleU pre mid post) = Ok w.
+  Proof.
+    intros IHl HC HV. destruct (conf_tupleu_parts _ _ _ _ _ _ HC) as [Hlen [Hpre [Hmid Hpost]]].
+    rewrite vals_ok_unfold in HV. apply andb_prop in HV. destruct HV as [_ HVl]. rewrite forallb_forall in HVl.
+    assert (Hr: forall (d: sty) (x: pv), In x l -> conf_g o E x d = true -> exists y, ref_enc E P x d = Ok y)
+      by (intros d x Hx Hq; apply (Forall_In _ _ IHl x Hx d Hq (HVl x Hx))).
+    rewrite ref_enc_unfold.
+    replace (List.length l <? List.length pre + List.length post)%nat with false by (symmetry; apply Nat.ltb_ge; exact Hlen).
+    cbv zeta. unfold tu_split. rewrite !map_length. rewrite !skipn_map, !firstn_map.
+    destruct (pos_walk_total (fun x0 => ref_enc E P x0) (fun (t': sty) (dx: sty -> res pv) => dx t') (fun t' x0 => conf_g o E x0 t') _ _ Hpre
+                (fun d x Hx => Hr d x (in_firstn _ _ _ Hx))) as [a Ea].
+    destruct (pos_walk_total (fun x0 => ref_enc E P x0) (fun (t': sty) (dx: sty -> res pv) => dx t') (fun t' x0 => conf_g o E x0 t') _ _ Hpost
+                (fun d x Hx => Hr d x (in_skipn _ _ _ Hx))) as [b Eb].
+    rewrite Ea. cbn [bind].
+    assert (Hm: exists m, (match mid with
+                 | STupleVar t' => mid_var (fun (t': sty) (dx: sty -> res pv) => dx t') t'
+                 | STupleFix ts => mid_fix (fun (t': sty) (dx: sty -> res pv) => dx t') (fun _ => None) (fun _ => Exn XIndexError) ts
+                 | _ => fun _ => Exn XTypeError end)
+                (Some (map (fun x0 => ref_enc E P x0) (firstn (List.length l - List.length pre - List.length post) (skipn (List.length pre) l)))) = Ok m).
+    { destruct mid; try discriminate Hmid.
+      - apply (mid_var_total (fun x0 => ref_enc E P x0) (fun (t': sty) (dx: sty -> res pv) => dx t') (fun t' x0 => conf_g o E x0 t') _ mid Hmid).
+        intros x Hx. apply Hr. apply (in_skipn _ _ _ (in_firstn _ _ _ Hx)).
+      - unfold mid_fix. destruct ts as [|t1 ts]; [exists []; reflexivity|]. cbn [omapM].
+        apply (fix_walk_total (fun x0 => ref_enc E P x0) (fun (t': sty) (dx: sty -> res pv) => dx t') _ (fun t' x0 => conf_g o E x0 t') _ _ Hmid).
+        intros d x Hx. apply Hr. apply (in_skipn _ _ _ (in_firstn _ _ _ Hx)). }
+    destruct Hm as [m Em]. rewrite Em. cbn [bind]. rewrite Eb. cbn [bind]. eexists. reflexivity.
+  Qed.
+
   Theorem ref_enc_total : forall v, enc_total_ok v.
   Proof.
     induction v as [ | b | z | f | s | m b | l IHl | l IHl | fr l IHl | kvs IHk | c fs IHf | e m | k w | c l IHl | tg ]
       using pv_rect'; unfold enc_total_ok.
-    all: intros t; induction t as [ | | | | | | m' | k' | e' | t' IHt | fr' t' IHt | t' IHt | ts | kt IHkt vt IHvt | t' IHt | c' | c' | c' ];
-      intros HC HV; rewrite conf_unfold in HC; try discriminate HC;
+    all: intros t; induction t as [ | | | | | | m' | k' | e' | t' IHt | fr' t' IHt | t' IHt | ts | pre mid IHmid post | kt IHkt vt IHvt | t' IHt | c' | c' | c' | t' IHt | kt IHkt vt IHvt | bx t' IHt ];
+      intros HC HV; try (solve [apply (total_tupleu _ _ _ _ IHl HC HV)]);
+      rewrite conf_unfold in HC; try discriminate HC;
       rewrite ref_enc_unfold; try (eexists; reflexivity).
     (* Optional of a non-None value *)
     all: try solve [ cbn [is_none orb] in HC |- *; apply (IHt HC HV) ].
@@ -595,6 +851,27 @@ Section Total.
     all: try solve [ try (apply andb_prop in HC; destruct HC as [_ HC]);
                      rewrite vals_ok_unfold in HV; apply andb_prop in HV; destruct HV as [_ HVl];
                      destruct (mapM_total l t' IHl HC HVl) as [r Er]; rewrite Er; eexists; reflexivity ].
+    (* dict / Mapping *)
+    all: try solve [
+      apply andb_prop in HC; destruct HC as [_ HC];
+      rewrite vals_ok_unfold in HV; apply andb_prop in HV; destruct HV as [_ HVl];
+      match goal with |- exists w, bind ?X _ = _ => assert (Hgo: exists r, X = Ok r) end;
+        [|destruct Hgo as [r Er]; rewrite Er; eexists; reflexivity];
+      clear IHkt IHvt; induction kvs as [|[k x] kvs IHkvs];
+      [ exists []; reflexivity
+      | cbn [forallb] in HC, HVl;
+        apply andb_prop in HC; destruct HC as [Ckx Cl]; apply andb_prop in Ckx; destruct Ckx as [Ck Cx];
+        apply andb_prop in HVl; destruct HVl as [Vkx Vl]; apply andb_prop in Vkx; destruct Vkx as [Vk Vx];
+        inversion IHk as [|? ? [Qk Qx] Qkvs]; subst; cbn [fst snd] in Qk, Qx;
+        destruct (Qk kt Ck Vk) as [k1 Ek]; destruct (Qx vt Cx Vx) as [x1 Ex]; destruct (IHkvs Qkvs Cl Vl) as [ys Eys];
+        exists ((k1, x1) :: ys); cbn [mapM]; rewrite Ek; cbn [bind]; rewrite Ex; cbn [bind]; rewrite Eys; reflexivity ] ].
+    (* boxed collections *)
+    all: try solve [
+      destruct fs as [|[n inner] [|]]; try discriminate HC;
+      apply andb_prop in HC; destruct HC as [_ HC];
+      destruct (chain_empty (is_chain bx) inner); [eexists; reflexivity|];
+      rewrite vals_ok_unfold in HV; apply andb_prop in HV; destruct HV as [_ HVf]; cbn [forallb] in HVf; rewrite andb_true_r in HVf;
+      inversion IHf as [|? ? Qi _]; subst; cbn [snd] in Qi; apply (Qi t' HC HVf) ].
     - (* fixed tuple *)
       rewrite vals_ok_unfold in HV. apply andb_prop in HV. destruct HV as [_ HVl].
       match goal with |- exists w, bind ?X _ = _ => assert (Hgo: exists r, X = Ok r) end;
@@ -606,19 +883,6 @@ Section Total.
         inversion IHl as [|? ? Qx Ql]; subst.
         destruct (Qx t1 Cx Vx) as [y Ey]. destruct (IHl' Ql Vl ts Cl) as [ys Eys].
         exists (y :: ys). rewrite Ey. cbn [bind]. rewrite Eys. reflexivity.
-    - (* dict *)
-      apply andb_prop in HC. destruct HC as [_ HC].
-      rewrite vals_ok_unfold in HV. apply andb_prop in HV. destruct HV as [_ HVl].
-      match goal with |- exists w, bind ?X _ = _ => assert (Hgo: exists r, X = Ok r) end;
-        [|destruct Hgo as [r Er]; rewrite Er; eexists; reflexivity].
-      clear IHkt IHvt. induction kvs as [|[k x] kvs IHkvs].
-      + exists []. reflexivity.
-      + cbn [forallb] in HC, HVl.
-        apply andb_prop in HC. destruct HC as [Ckx Cl]. apply andb_prop in Ckx. destruct Ckx as [Ck Cx].
-        apply andb_prop in HVl. destruct HVl as [Vkx Vl]. apply andb_prop in Vkx. destruct Vkx as [Vk Vx].
-        inversion IHk as [|? ? [Qk Qx] Qkvs]; subst. cbn [fst snd] in Qk, Qx.
-        destruct (Qk kt Ck Vk) as [k1 Ek]. destruct (Qx vt Cx Vx) as [x1 Ex]. destruct (IHkvs Qkvs Cl Vl) as [ys Eys].
-        exists ((k1, x1) :: ys). cbn [mapM]. rewrite Ek. cbn [bind]. rewrite Ex. cbn [bind]. rewrite Eys. reflexivity.
     - (* TypedDict *)
       destruct (sfind E _ c') as [k0|]; [|discriminate HC].
       apply andb_prop in HC. destruct HC as [HC _]. apply andb_prop in HC. destruct HC as [_ HCf].
